@@ -16,7 +16,7 @@ import (
 type Profile struct {
 	Name string
 	// weights
-	Tick, Campaign, Propose, ProposeCC, Read, Transfer, Forget, Unreach, RepSnap int
+	Tick, Campaign, Propose, ProposeCC, Read, Transfer, Forget, Unreach, RepSnap        int
 	Deliver, Drop, Dup, ReadyStep, AppendTh, ApplyTh, Snapshot, Compact, Crash, Restart int
 	CrashInAppend                                                                       int
 	Partition, Heal                                                                     int
@@ -61,15 +61,48 @@ type Driver struct {
 	blocked map[[2]uint64]bool
 	spare   []uint64
 	chaos   bool
+	// scenario support
+	forceChaos   bool
+	frozenReady  map[uint64]bool // the node's Ready pipeline is stalled
+	frozenAppend map[uint64]bool // append thread stalled
+	frozenApply  map[uint64]bool // apply thread stalled
+	loseUnsynced bool
 }
 
 func pct(r *rand.Rand, p int) bool { return r.Intn(100) < p }
 
 // GenCluster draws a cluster configuration from the seed.
-func GenCluster(r *rand.Rand, p Profile, seed int64) JCluster {
+type Wish struct {
+	MinNodes, MaxNodes int
+	Async, Tiny        int // -1 = profile default, else percent
+	Spare              int
+	NoLearner          bool
+}
+
+var noWish = Wish{Async: -1, Tiny: -1, Spare: -1}
+
+func GenCluster(r *rand.Rand, p Profile, seed int64, w Wish) JCluster {
+	if w.MaxNodes > 0 {
+		p.MaxNodes = w.MaxNodes
+	}
+	if w.Async >= 0 {
+		p.Async = w.Async
+	}
+	if w.Tiny >= 0 {
+		p.TinyLimits = w.Tiny
+	}
+	if w.Spare >= 0 {
+		p.Spare = w.Spare
+	}
+	if w.NoLearner {
+		p.Learner = 0
+	}
 	n := 1 + r.Intn(p.MaxNodes)
 	if n < 3 && pct(r, 70) {
 		n = 3
+	}
+	if n < w.MinNodes {
+		n = w.MinNodes
 	}
 	async := pct(r, p.Async)
 	tiny := pct(r, p.TinyLimits)
@@ -124,7 +157,8 @@ func GenCluster(r *rand.Rand, p Profile, seed int64) JCluster {
 }
 
 func NewDriver(c *Cluster, r *rand.Rand, p Profile) *Driver {
-	d := &Driver{c: c, r: r, p: p, nextPid: 1, nextRid: 1, blocked: map[[2]uint64]bool{}}
+	d := &Driver{c: c, r: r, p: p, nextPid: 1, nextRid: 1, blocked: map[[2]uint64]bool{},
+		frozenReady: map[uint64]bool{}, frozenAppend: map[uint64]bool{}, frozenApply: map[uint64]bool{}}
 	c.rtoDraw = func(id uint64, et int) int { return et + r.Intn(et) }
 	return d
 }
@@ -211,7 +245,9 @@ func (d *Driver) Step() bool {
 	// calm / chaos phases: faults only happen in chaos phases, so that the
 	// group regularly gets far enough (leaders, commits, conf changes,
 	// snapshots) for the faults to hit interesting states.
-	if d.chaos {
+	if d.forceChaos {
+		// scenario phase: weights are used as given
+	} else if d.chaos {
 		if pct(d.r, 8) {
 			d.chaos = false
 			if pct(d.r, 70) {
@@ -221,7 +257,7 @@ func (d *Driver) Step() bool {
 	} else if pct(d.r, 4) {
 		d.chaos = true
 	}
-	if !d.chaos {
+	if !d.chaos && !d.forceChaos {
 		p.Crash, p.CrashInAppend, p.Drop, p.Dup, p.Forget, p.Unreach, p.Partition = 0, 0, 0, 0, 0, 0, 0
 		p.Campaign = min(p.Campaign, 1)
 		p.Restart *= 3
@@ -250,17 +286,17 @@ func (d *Driver) Step() bool {
 			add("Unreach", p.Unreach, Step{Act: "ReportUnreachable", Node: n.ID, To: other})
 			add("RepSnap", p.RepSnap, Step{Act: "ReportSnapshot", Node: n.ID, To: other, Ok: pct(d.r, 60)})
 		}
-		if st := nextReadyStep(n); st != "" {
+		if st := nextReadyStep(n); st != "" && !d.frozenReady[n.ID] {
 			add("ReadyStep", p.ReadyStep, Step{Act: st, Node: n.ID})
 		}
-		if len(n.AppendQ) > 0 {
+		if len(n.AppendQ) > 0 && !d.frozenAppend[n.ID] {
 			add("AppendTh", p.AppendTh, Step{Act: "AppendThread", Node: n.ID})
 			add("CrashInAppend", p.CrashInAppend, Step{Act: "CrashInAppend", Node: n.ID, K: uint64(d.r.Intn(2))})
 		}
-		if len(n.ApplyQ) > 0 {
+		if len(n.ApplyQ) > 0 && !d.frozenApply[n.ID] {
 			add("ApplyTh", p.ApplyTh, Step{Act: "ApplyThread", Node: n.ID})
 		}
-		add("Crash", p.Crash, Step{Act: "Crash", Node: n.ID})
+		add("Crash", p.Crash, Step{Act: "Crash", Node: n.ID, Ok: d.loseUnsynced || pct(d.r, 50)})
 	}
 	for _, id := range c.IDs {
 		n := c.Nodes[id]
@@ -327,7 +363,7 @@ func (d *Driver) Step() bool {
 			if k < weight[kind] {
 				cands := kinds[kind]
 				s := cands[d.r.Intn(len(cands))]
-				if kind == "ReadyStep" && !d.chaos && pct(d.r, 75) {
+				if kind == "ReadyStep" && (!d.chaos || d.forceChaos) && pct(d.r, 75) {
 					// run the node's whole Ready pipeline
 					for k := 0; k < 8; k++ {
 						n := c.up(s.Node)
